@@ -322,3 +322,146 @@ Section TopKStep.
     rewrite nth_repeat. reflexivity.
   Qed.
 End TopKStep.
+
+(* ---- C10: topk is distributive over a partition of the samples ------------------- *)
+
+Section TopKDistributed.
+  Variable V : Type.
+  Variable lt : V -> V -> bool.
+  Variable isnan : V -> bool.
+  Hypothesis lt_nan_l : forall a b, isnan a = true -> lt a b = false.
+  Hypothesis lt_nan_r : forall a b, isnan b = true -> lt a b = false.
+  Hypothesis lt_irrefl : forall a, lt a a = false.
+  Hypothesis lt_trans : forall a b c, lt a b = true -> lt b c = true -> lt a c = true.
+  Hypothesis lt_negtrans : forall a b c, isnan c = false -> lt a b = true -> lt a c = true \/ lt c b = true.
+
+  Notation entry := (entry V).
+  Notation worse := (worse V lt isnan).
+  Hypothesis V_eq_dec : forall a b : V, {a = b} + {a <> b}.
+
+  Lemma in_dec_by_id (l : list entry) (y : entry) : {In y l} + {~ In y l}.
+  Proof. apply in_dec. intros a b. decide equality; try apply V_eq_dec; apply Nat.eq_dec. Qed.
+
+  (* K is a top-k selection of S *)
+  Definition is_topk (k : nat) (K S : list entry) : Prop :=
+    incl K S /\ NoDup (map fst K) /\ length K = Nat.min k (length S) /\
+    forall x y, In x K -> In y S -> ~ In y K -> worse (snd x) (snd y) = false.
+
+  (* if x is strictly worse than y, then every z is strictly better than x or strictly worse than y *)
+  Lemma worse_negtrans x y z : worse x y = true -> worse x z = true \/ worse z y = true.
+  Proof.
+    unfold TopkProofs.worse. intros H. destruct (isnan y) eqn:Ny; [discriminate|].
+    destruct (isnan z) eqn:Nz.
+    - right. reflexivity.
+    - destruct (isnan x) eqn:Nx; [left; reflexivity|]. simpl in *.
+      destruct (lt_negtrans x y z Nz H) as [H1|H1]; [left|right]; assumption.
+  Qed.
+
+  Lemma min_sum_min k (l : list nat) :
+    Nat.min k (list_sum (map (Nat.min k) l)) = Nat.min k (list_sum l).
+  Proof. induction l as [|a l IH]; simpl; [reflexivity|]. lia. Qed.
+
+  Lemma length_concat_sum {A} (ls : list (list A)) : length (concat ls) = list_sum (map (@length A) ls).
+  Proof. induction ls as [|l ls IH]; simpl; [reflexivity|]. rewrite app_length, IH. reflexivity. Qed.
+
+  Lemma forall2_lengths k (Ks parts : list (list entry)) :
+    Forall2 (is_topk k) Ks parts -> map (@length entry) Ks = map (Nat.min k) (map (@length entry) parts).
+  Proof. induction 1 as [|K S Ks parts [_ [_ [HL _]]] _ IH]; simpl; [reflexivity|]. rewrite HL, IH. reflexivity. Qed.
+
+  Lemma forall2_incl k (Ks parts : list (list entry)) :
+    Forall2 (is_topk k) Ks parts -> incl (concat Ks) (concat parts).
+  Proof.
+    induction 1 as [|K S Ks parts [HI _] _ IH]; simpl; [intros x []|].
+    intros x Hx. apply in_app_or in Hx. apply in_or_app. destruct Hx as [Hx|Hx]; [left; apply HI; assumption|right; apply IH; assumption].
+  Qed.
+
+  Lemma forall2_find k (Ks parts : list (list entry)) y :
+    Forall2 (is_topk k) Ks parts -> In y (concat parts) ->
+    exists K S, is_topk k K S /\ In y S /\ incl K (concat Ks).
+  Proof.
+    induction 1 as [|K S Ks parts HP _ IH]; simpl; intros Hy; [destruct Hy|].
+    apply in_app_or in Hy. destruct Hy as [Hy|Hy].
+    - exists K, S. split; [assumption|]. split; [assumption|]. intros z Hz. apply in_or_app. left. assumption.
+    - destruct (IH Hy) as [K' [S' [H1 [H2 H3]]]]. exists K', S'. split; [assumption|]. split; [assumption|].
+      intros z Hz. apply in_or_app. right. apply H3. assumption.
+  Qed.
+
+  (* topk over the union of disjoint parts = topk over the union of the parts' topk:
+     what the distributed plan computes is a top-k selection of all the samples *)
+  Theorem topk_distributive k (parts Ks : list (list entry)) K : 1 <= k ->
+    Forall2 (is_topk k) Ks parts -> is_topk k K (concat Ks) -> is_topk k K (concat parts).
+  Proof.
+    intros Hk HF [HI [HN [HL HW]]]. split; [|split; [assumption|split]].
+    - intros x Hx. apply (forall2_incl k Ks parts HF). apply HI. assumption.
+    - rewrite HL, !length_concat_sum, (forall2_lengths k Ks parts HF). apply min_sum_min.
+    - intros x y Hx Hy Hny. destruct (worse (snd x) (snd y)) eqn:Ew; [exfalso|reflexivity].
+      destruct (forall2_find k Ks parts y HF Hy) as [Ki [Si [[HIi [HNi [HLi HWi]]] [Hyi HKi]]]].
+      destruct (in_dec_by_id Ki y) as [Hin|Hnin].
+      + (* y was kept by its part and dropped by the merge *)
+        rewrite (HW x y Hx (HKi y Hin) Hny) in Ew. discriminate.
+      + (* y was dropped by its part: the part's k kept samples are all in K *)
+        assert (HNe : NoDup Ki) by (apply (NoDup_map_inv fst); assumption).
+        assert (HNK : NoDup K) by (apply (NoDup_map_inv fst); assumption).
+        assert (Hfull : length Ki = k).
+        { assert (Hlt : S (length Ki) <= length Si).
+          { apply (NoDup_incl_length (l := y :: Ki)); [constructor; assumption|].
+            intros z [<-|Hz]; [assumption|apply HIi; assumption]. }
+          lia. }
+        assert (Hsub : incl Ki K).
+        { intros z Hz. destruct (in_dec_by_id K z) as [HzK|HzK]; [assumption|exfalso].
+          pose proof (HW x z Hx (HKi z Hz) HzK) as H1.
+          destruct (worse_negtrans _ _ (snd z) Ew) as [H2|H2]; [congruence|].
+          rewrite (HWi z y Hz Hyi Hnin) in H2. discriminate. }
+        assert (HKsub : incl K Ki).
+        { apply NoDup_length_incl; [assumption| |assumption]. rewrite HL, Hfull. lia. }
+        rewrite (HWi x y (HKsub x Hx) Hyi Hnin) in Ew. discriminate.
+  Qed.
+
+  Lemma nodup_app_parts {A} (a b : list A) : NoDup (a ++ b) -> NoDup a /\ NoDup b /\ forall x, In x a -> In x b -> False.
+  Proof.
+    induction a as [|x a IH]; simpl; intros H; [split; [constructor|split; [assumption|intros ? []]]|].
+    inversion H as [|? ? Hn Hnd]; subst. destruct (IH Hnd) as [N1 [N2 D]].
+    split; [constructor; [intros Hin; apply Hn; apply in_or_app; left; assumption|assumption]|].
+    split; [assumption|]. intros y [->|Hy] Hy2; [apply Hn; apply in_or_app; right; assumption|exact (D y Hy Hy2)].
+  Qed.
+
+  Lemma nodup_app_join {A} (a b : list A) :
+    NoDup a -> NoDup b -> (forall x, In x a -> In x b -> False) -> NoDup (a ++ b).
+  Proof.
+    induction a as [|x a IH]; intros Ha Hb Hd; simpl; [assumption|].
+    inversion Ha as [|? ? Hn Ha']; subst. constructor.
+    - intros Hin. apply in_app_or in Hin. destruct Hin as [Hin|Hin]; [contradiction|].
+      apply (Hd x); [left; reflexivity|assumption].
+    - apply IH; [assumption|assumption|]. intros y Hy. apply Hd. right. assumption.
+  Qed.
+
+  Lemma nodup_concat_kept k (Ks parts : list (list entry)) :
+    Forall2 (is_topk k) Ks parts -> NoDup (map fst (concat parts)) -> NoDup (map fst (concat Ks)).
+  Proof.
+    induction 1 as [|K S Ks parts [HI [HN _]] HF IH]; simpl; intros Hnd; [constructor|].
+    rewrite map_app in *. destruct (nodup_app_parts _ _ Hnd) as [N1 [N2 D]].
+    specialize (IH N2).
+    apply nodup_app_join; [assumption|assumption|].
+    intros i Hi Hi2. apply (D i); [apply (incl_map fst HI); assumption|].
+    apply (incl_map fst (forall2_incl k Ks parts HF)). assumption.
+  Qed.
+
+  Notation topk_group := (topk_group V lt isnan).
+
+  (* the engine's own selection satisfies the specification ... *)
+  Lemma topk_group_is_topk k samples : 1 <= k -> NoDup (map fst samples) -> is_topk k (topk_group k samples) samples.
+  Proof. intros Hk Hnd. apply (topk_group_spec V lt isnan lt_nan_r lt_irrefl lt_trans lt_negtrans k samples Hk Hnd). Qed.
+
+  (* ... so merging the partitions' selections with the same operator selects a top-k of everything *)
+  Corollary topk_pushdown k (parts : list (list entry)) : 1 <= k -> NoDup (map fst (concat parts)) ->
+    is_topk k (topk_group k (concat (map (topk_group k) parts))) (concat parts).
+  Proof.
+    intros Hk Hnd.
+    assert (HF : Forall2 (is_topk k) (map (topk_group k) parts) parts).
+    { clear -Hk Hnd lt_nan_r lt_irrefl lt_trans lt_negtrans. induction parts as [|S parts IH]; simpl; [constructor|].
+      simpl in Hnd. rewrite map_app in Hnd. destruct (nodup_app_parts _ _ Hnd) as [N1 [N2 _]].
+      constructor; [apply topk_group_is_topk; assumption|apply IH; assumption]. }
+    apply (topk_distributive k parts _ _ Hk HF).
+    apply topk_group_is_topk; [assumption|]. apply (nodup_concat_kept k _ parts HF Hnd).
+  Qed.
+End TopKDistributed.
